@@ -64,7 +64,7 @@ def random_seq_script(rng, n):
     return {"level": "seq", "ext": ext, "base": base, "streams": streams, "steps": steps}
 
 
-def conc_script(rng, k, nstreams, plain, total):
+def conc_script(rng, k, nstreams, plain, total, failevery=0):
     """k goroutines on nstreams streams (`plain` of the goroutines write on a stream that did not negotiate);
     batches keep the numbered packets of one batch <= 20000 so that they unwrap unambiguously."""
     streams = [{"s": i + 1, "id": rng.randint(1, 14), "decoy": rng.choice([0, 3])} for i in range(nstreams)]
@@ -82,7 +82,8 @@ def conc_script(rng, k, nstreams, plain, total):
         batches.append(p)
         left -= p * numbered
     base = rng.choice([0, 60000, 0xFFFF0000 + rng.randrange(65536), rng.randrange(2 ** 32)])
-    return {"level": "conc", "ext": 0, "base": base, "streams": streams, "steps": [], "assign": assign, "batches": batches}
+    return {"level": "conc", "ext": 0, "base": base, "streams": streams, "steps": [], "assign": assign, "batches": batches,
+            "failevery": failevery}
 
 
 def nontrivial(evs):
@@ -128,10 +129,11 @@ def run(ctx):
     run_batch(ctx, [random_seq_script(rng, ln) for _ in range(n)], "T-seq-random")
     # (T) concurrent: k goroutines on 1..k streams, > 2^16 numbered packets each
     if ctx.quick:
-        plans = [(1, 1, 0, 66000), (4, 2, 1, 67000), (16, 16, 2, 70000), (16, 3, 0, 66000)]
+        plans = [(1, 1, 0, 66000), (4, 2, 1, 67000), (16, 16, 2, 70000), (16, 3, 0, 66000),
+                 (1, 1, 0, 3000, 7), (8, 3, 1, 30000, 5)]           # (.., failevery): the transport fails some writes
     else:
         plans = [(1, 1, 0, 140000), (4, 1, 0, 200000), (4, 4, 1, 200000), (16, 1, 0, 300000), (16, 16, 2, 300000),
-                 (16, 5, 1, 300000), (4, 2, 0, 140000), (16, 8, 4, 140000)] * 3
+                 (16, 5, 1, 300000), (4, 2, 0, 140000), (16, 8, 4, 140000), (1, 1, 0, 30000, 7), (16, 4, 1, 140000, 3)] * 3
     evs = run_batch(ctx, [conc_script(rng, *p) for p in plans], "T-conc") or []
     extra = {"concurrent_numbered_packets": sum(e["total"] for e in evs if e["a"] == "end"),
              "concurrent_runs_logged": sum(1 for e in evs if e["a"] == "run"),
